@@ -135,26 +135,41 @@ def canon_tree(tree, depth=0, strict=False):
             node.value = val
 
 
-def _accounts_for_names(src, tree):
-    """Precondition on the parser's reading of the *input*: every identifier and number of the source
-    (outside comments) shows up in the tree.  xonsh's line-wrapping recovery sometimes turns a
-    multi-line Python statement into a command made of its first few characters and silently drops the
-    rest; such a tree has no definite meaning to preserve (C02/C03 territory)."""
-    import ast
+_KW = None
 
+
+def _accounts_for_names(src, tree):
+    """Precondition on the parser's reading of a text: every identifier of the text (outside comments;
+    keywords aside) occurs in the tree at least as often as in the text.  xonsh's line-wrapping recovery
+    sometimes turns a statement into a command made of a part of it and silently drops the rest
+    (`x-y z || tar` parses to the command `tar`; a multi-line call `f(a,<newline>b)` in a block to the
+    command `f`); such a tree has no definite meaning to preserve (C02/C03 territory)."""
+    import ast
+    import keyword
+    import re
+    from collections import Counter
+
+    global _KW
+    if _KW is None:
+        _KW = set(keyword.kwlist) | set(keyword.softkwlist) | {"print"}
     xtok = _state["xtok"]
     if tree is None:
-        return True
-    try:
-        text = ast.unparse(tree)
-    except Exception:  # noqa: BLE001
         return True
     try:
         toks = A.tokenize(src)
     except Exception:  # noqa: BLE001
         return True
-    for t in toks:
-        if t.type == xtok.NAME and len(t.string) > 1 and t.string not in text and t.string.isascii():
+    want = Counter(t.string for t in toks if t.type == xtok.NAME and t.string not in _KW and t.string.isascii())
+    if not want:
+        return True
+    try:
+        text = ast.unparse(tree)
+    except Exception:  # noqa: BLE001
+        return True
+    text = re.sub(r"__xonsh__\.\w+|__import__|globals\(\)|locals\(\)|in_boolop=True", " ", text)
+    have = Counter(re.findall(r"[A-Za-z_][A-Za-z0-9_]*", text))
+    for name, n in want.items():
+        if have.get(name, 0) < n and text.count(name) < n:       # (a backslash-newline may join two words into one)
             return False
     return True
 
@@ -402,6 +417,13 @@ def _attribute(res, ref, out, script, family, c17_findings, tolerate=True):
         v = verdict(ref, text)
         if v is None:
             continue
+        if v[0] == "tree-differs":
+            # the indentation of all logical lines is one unit; where it matters is told by where the tree differs
+            eff = "macro-block" if "macro" in verdict.flags else "subproc" if "subproc" in verdict.flags else "python"
+            for u in us:
+                if len(u) > 1 and all(d["rule"] == "indent" for _, d in u):
+                    for _, d in u:
+                        d["ctx"] = eff
         if v[0] == "tree-differs" and "macro" in verdict.flags:
             # the indentation unit (atomic) reaches into the raw body of a `with!` block and the difference is in a macro string
             for u in us:
@@ -1121,24 +1143,40 @@ def main(run):
     thorough = run.tier == "thorough"
     nw = int(os.environ.get("C17_NW", 16))
     # (d) real text
+    import time
+
+    t_phase = time.time()
+    phases = {}
+
+    def lap(name):
+        nonlocal t_phase
+        phases[name] = round(time.time() - t_phase, 1)
+        t_phase = time.time()
+
     texts = repo_texts()
     run.extra["repo_texts"] = len(texts)
     common.pool_map(run, __name__, "worker_texts", [(texts[i::nw], "repo-text", run.scratch) for i in range(nw) if texts[i::nw]])
+    lap("repo-text")
     files = corpus.all_files()
     rnd = random.Random(run.seed)        # lays out which stdlib files are sampled; not inside a property
     rnd.shuffle(files)
     files = files[:run.n(60, 900)]
     common.pool_map(run, __name__, "worker_corpus", [(files[i::nw], run.scratch) for i in range(nw) if files[i::nw]])
+    lap("stdlib")
     # (a) generated Python
     npy = run.n(int(os.environ.get("C17_NPY", 260)), 9000)
     common.pool_map(run, __name__, "worker_py",
                     [(common.worker_seed(run.seed, w), npy, 20 + 8 * (w % 4), run.scratch) for w in range(nw)])
+    lap("python-generated")
     # (b), (c) generated xonsh and mixtures
     nx = run.n(int(os.environ.get("C17_NX", 700)), 24000)
     common.pool_map(run, __name__, "worker_xsh", [(common.worker_seed(run.seed, 100 + w), nx, run.scratch) for w in range(nw)])
+    lap("xonsh-generated")
     # (e) untokenisable input and the CLI
     nc = run.n(60, 1500)
     common.pool_map(run, __name__, "worker_cli", [(common.worker_seed(run.seed, 200 + w), nc, run.scratch) for w in range(8)])
+    lap("cli")
+    run.extra["phase_seconds"] = phases
     st = run.stats
     tot = st.evaluations + st.discards
     generated_discards = sum(v for k, v in st.hist.items() if k in ("discard:xonsh-line", "discard:xonsh-program", "discard:mixture"))
